@@ -341,7 +341,7 @@ def local_defs(fn, program=None, extra_ok=()):
         ty = st.get("ty", "")
         simple = ty.startswith("const ") or ty.endswith("*") or ty.endswith("* const") or ty in (
             "bool", "int", "unsigned int", "int64_t", "uint64_t", "uint32_t", "int32_t", "size_t", "CAmount", "long", "unsigned long",
-            "std::size_t", "uint8_t", "unsigned char", "NodeId", "auto") or n in extra_ok
+            "std::size_t", "uint8_t", "unsigned char", "NodeId", "auto") or ty.endswith("iterator") or n in extra_ok
         if simple:
             out[n] = st["i"]
     return out
@@ -696,3 +696,58 @@ class MustFlow(Flow):
 
     def on_exit(self, state, stmt):
         self.exits.append((state, stmt))
+
+
+class MayFlow(Flow):
+    """State = frozenset of labels that MAY hold on some path (joins unite).
+    gens: (label, pred(expr)) add the label at an expression event; kills: (label, pred(expr)) remove it;
+    branch_kills: (label, pred(atom), polarity) remove the label on the branch where the atom has that truth
+    value; branch_gens likewise add."""
+
+    def __init__(self, fn, program=None, gens=(), kills=(), branch_kills=(), branch_gens=(), init=frozenset()):
+        super().__init__(fn, program)
+        self.gens, self.kills_, self.branch_kills, self.branch_gens = list(gens), list(kills), list(branch_kills), list(branch_gens)
+        self.init = frozenset(init)
+        self.events = []
+        self.exits = []
+        self.watch = None
+
+    def initial(self):
+        return self.init
+
+    def join(self, a, b):
+        return a | b
+
+    def on_expr(self, state, e, stmt):
+        if self.watch is not None and self.watch(e):
+            self.events.append((e, state, stmt))
+        for label, pred in self.kills_:
+            if pred(e):
+                state = state - {label}
+        for label, pred in self.gens:
+            if pred(e):
+                state = state | {label}
+        return state
+
+    def refine(self, state, atom, pol):
+        for label, pred, p in self.branch_kills:
+            if p == pol and pred(atom):
+                state = state - {label}
+        for label, pred, p in self.branch_gens:
+            if p == pol and pred(atom):
+                state = state | {label}
+        return state
+
+    def on_exit(self, state, stmt):
+        self.exits.append((state, stmt))
+
+
+def sub_function(fn, body, suffix="body"):
+    """A pseudo-function whose body is a sub-statement of fn (e.g. one loop body) for per-iteration flow analysis."""
+    from .ir import Function
+    d = dict(fn.d)
+    d["body"] = body if body.get("k") == "seq" else {"k": "seq", "l": body.get("l"), "s": [body]}
+    d["q"] = fn.q + "::" + suffix
+    f = Function(d, fn.unit)
+    f._simplified = True
+    return f
